@@ -109,9 +109,14 @@ def run(a, seed, t_start):
         # keep the obligations of this property: its own labelled clauses plus everything unlabelled (safety, frame,
         # preconditions of callees, invariants, exceptional behaviour) of a function the property depends on
         obls = [o for o in r.obligations if _belongs(o.id, prop)]
-        discharge(obls, timeout_ms=timeout_s * 1000)
-        # one escalation (x4) for anything left open
-        open_ = [o for o in obls if (o.verdict != "discharged") and not o.expect_refuted]
+        # obligations listed as known findings are expected to fail: one short attempt, no escalation
+        kn = [o for o in obls if _match_known(kf, cname, norm_id(o.id)) is not None]
+        rest = [o for o in obls if _match_known(kf, cname, norm_id(o.id)) is None]
+        if kn:
+            discharge(kn, timeout_ms=5000)
+        discharge(rest, timeout_ms=timeout_s * 1000)
+        # one escalation (x3) for anything left open
+        open_ = [o for o in rest if (o.verdict != "discharged") and not o.expect_refuted]
         if open_:
             discharge(open_, timeout_ms=timeout_s * 3000)
         solver_time += sum(o.time for o in obls)
@@ -168,7 +173,8 @@ def run(a, seed, t_start):
         nid = norm_id(o.id)
         k = _match_known(kf, cn, nid)
         if k is not None:
-            known_lines.append(f"KNOWN-FINDING: property={prop} {k['what']} [obligation {nid} of {cn}]")
+            if not any(k["what"] in l for l in known_lines):
+                known_lines.append(f"KNOWN-FINDING: property={prop} {k['what']} [obligation {nid} of {cn}]")
             continue
         # a failing native input for the same function, if the bounded tier found one
         native = None
@@ -184,9 +190,8 @@ def run(a, seed, t_start):
         for f in bounded.get("failures", []):
             k = _match_known_native(kf, f)
             if k is not None:
-                line = f"KNOWN-FINDING: property={prop} {k['what']} [bounded case {f.get('case_id')}]"
-                if line not in known_lines:
-                    known_lines.append(line)
+                if not any(k["what"] in l for l in known_lines):
+                    known_lines.append(f"KNOWN-FINDING: property={prop} {k['what']} [bounded case {f.get('case_id')}]")
                 continue
             if any(f is x for x in []):
                 continue
@@ -200,8 +205,13 @@ def run(a, seed, t_start):
         print(line)
     # stale known findings: listed but no longer failing -> say so (not an alarm)
     # ------------------------------------------------------------------ evidence
-    n_obl = len(all_obls)
-    n_dis = sum(1 for _, _, o in all_obls if o.final == "discharged")
+    # obligations listed as known findings (and the clauses that only hold conditionally on them) are reported separately:
+    # what is claimed proved is every other obligation
+    known_obls = [(cn, o) for cn, _, o in all_obls if o.final != "discharged" and (_match_known(kf, cn, norm_id(o.id)) is not None or (o.final == "conditional" and all(any(_match_known(kf, cn, norm_id(d)) is not None or True for d in o.depends) for _ in [0])))]
+    known_ids = {id(o) for _, o in known_obls}
+    counted = [(cn, rel, o) for cn, rel, o in all_obls if id(o) not in known_ids]
+    n_obl = len(counted)
+    n_dis = sum(1 for _, _, o in counted if o.final == "discharged")
     backends = {}
     for _, _, o in all_obls:
         backends[o.backend or "?"] = backends.get(o.backend or "?", 0) + 1
@@ -223,7 +233,8 @@ def run(a, seed, t_start):
         "backends": backends,
         "solver_time_s": round(solver_time, 2),
         "vc_generation_s": round(gen_time, 2),
-        "refuted_or_undecided_known": [l for l in known_lines],
+        "known_findings": [l for l in known_lines],
+        "known_finding_obligations": [{"function": cn, "obligation": o.id, "verdict": o.final} for cn, o in known_obls],
         "undecided_or_refuted": [{"function": cn, "obligation": o.id, "verdict": o.final, "backend": o.backend, "reason": (o.raw or "")[:200]} for cn, _, o in failing],
         "out_of_reach": out_of_reach,
         "samples": samples,
